@@ -1,0 +1,33 @@
+//go:build verif
+
+package calcium
+
+import (
+	"github.com/projecteru2/core/resource"
+	"github.com/projecteru2/core/store"
+	"github.com/projecteru2/core/wal"
+)
+
+// VerifDeps exposes the collaborators of a Calcium built by New, so that a verification
+// harness can decorate them. Verification builds only (build tag verif).
+func (c *Calcium) VerifDeps() (store.Store, resource.Manager, wal.WAL) {
+	return c.store, c.rmgr, c.wal
+}
+
+// VerifSetDeps replaces the collaborators (nil keeps the current one).
+func (c *Calcium) VerifSetDeps(s store.Store, r resource.Manager, w wal.WAL) {
+	if s != nil {
+		c.store = s
+	}
+	if r != nil {
+		c.rmgr = r
+	}
+	if w != nil {
+		c.wal = w
+	}
+}
+
+// VerifPoolRunning reports the number of pool workers currently running a task.
+func (c *Calcium) VerifPoolRunning() int {
+	return c.pool.Running()
+}
